@@ -15,6 +15,23 @@ from .engine import (SymSeq, NdStore, Obj, Opaque, Func, Lib, ClassRef, PyRaise,
                      _coerce, _tyname)
 
 
+def term_key(v):
+    """structural key of an uninterpreted term (for canonical ordering / equality of EUF terms)"""
+    if isinstance(v, Opaque):
+        return ("O", v.tag, tuple(term_key(d) for d in v.deps))
+    if isinstance(v, (tuple, list)):
+        return ("T",) + tuple(term_key(x) for x in v)
+    if isinstance(v, dict):
+        return ("D",) + tuple((str(k), term_key(x)) for k, x in sorted(v.items(), key=lambda t: str(t[0])))
+    if isinstance(v, Obj):
+        return ("Obj", v.mod, v.cls, id(v))
+    if isinstance(v, Func):
+        return ("F", v.qual or id(v.node))
+    if is_z3(v):
+        return ("Z", str(v))
+    return ("C", repr(v))
+
+
 def is_arr(v):
     return isinstance(v, SymSeq) and v.kind == "array"
 
@@ -28,6 +45,9 @@ def call(it, name, args, kw):
     short = name.replace("jax.numpy.", "np.").replace("numpy.", "np.").replace("builtins.", "")
     f = _MODELS.get(short)
     if f is None:
+        if getattr(run, "uninterp_libs", False):
+            # pure library function without a model: an uninterpreted function of its arguments (EUF)
+            return Opaque("lib:" + short, list(args) + [(k, v) for k, v in sorted(kw.items())])
         raise Unsupported(f"no library model for {name}")
     return f(it, args, kw)
 
@@ -102,6 +122,8 @@ def _print(it, a, kw):
 
 def _abs(it, a, kw):
     v = a[0]
+    if isinstance(v, Opaque):
+        return Opaque("lib:np.abs", [v])
     if is_arr(v):
         return SymSeq(v.length, lambda i: _abs(it, [v.at(i)], {}), "array")
     if is_z3(v):
@@ -219,7 +241,10 @@ def binop(it, op, a, b):
         eb = (lambda i: b.at(i)) if is_arr(b) else (lambda i: b)
         return SymSeq(n, lambda i: it.binop(op, ea(i), eb(i)), "array")
     if isinstance(a, Opaque) or isinstance(b, Opaque):
-        return Opaque("binop:" + type(op).__name__, [a, b])
+        ops = [a, b]
+        if isinstance(op, (ast.Add, ast.Mult)):          # commutative: canonical operand order
+            ops = sorted(ops, key=lambda v: repr(term_key(v)))
+        return Opaque("binop:" + type(op).__name__, ops)
     raise Unsupported(f"binop on {type(a).__name__},{type(b).__name__}")
 
 
@@ -234,6 +259,9 @@ def subscript(it, o, idx):
     if isinstance(o, NdStore):
         raise Unsupported("read of NdStore inside analysed code")
     if isinstance(o, Opaque):
+        st = getattr(o, "stores", None)
+        if st and isinstance(idx, (str, int)) and idx in st:
+            return st[idx]
         return Opaque("getitem", [o, idx])
     raise Unsupported(f"subscript of {type(o).__name__}")
 
